@@ -192,10 +192,12 @@ def feats_canon(feats):
 OPS = {}
 
 
-def op(name, classes=("raster", "vector"), group="misc", index_free=False):
+def op(name, classes=("raster", "vector"), group="misc", index_free=False, variants=1):
+    """variants: how many independently drawn argument sets of this op are run per world (ops with a wide
+    option space)"""
     def deco(fns):
         gen, call = fns()
-        OPS[name] = {"gen": gen, "call": call, "classes": classes, "group": group}
+        OPS[name] = {"gen": gen, "call": call, "classes": classes, "group": group, "variants": variants}
         return fns
     return deco
 
@@ -297,12 +299,19 @@ def _():
     return _noargs, lambda W, a: W.flw.upstream_sum(W.arr("elev", np.int64))
 
 
-@op("moving_average", group="window")
+@op("moving_average", group="window", variants=2)
 def _():
-    return (lambda rng, w: {"n": rng.choice([0, 1, 2, 3]), "restrict": rng.random() < 0.4, "weights": rng.random() < 0.4,
-                            "dt": rng.choice(["float64", "float32"])},
+    def wts(W, a):
+        if not a["weights"]:
+            return None
+        w = W.arr("area_distinct", np.float64)
+        if a.get("wzero"):  # weights that vanish on whole stretches (zero river width): windows of total weight 0
+            w = np.ascontiguousarray(np.where(W.arr("elev", np.int64) % 3 != 0, 0.0, w))
+        return w
+    return (lambda rng, w: {"n": rng.choice([0, 1, 2, 3]), "restrict": rng.random() < 0.4, "weights": rng.random() < 0.5,
+                            "wzero": rng.random() < 0.5, "dt": rng.choice(["float64", "float32"])},
             lambda W, a: W.flw.moving_average(W.arr("elevf", np.dtype(a.get("dt", "float64"))), n=a["n"], restrict_strord=a["restrict"],
-                                              weights=W.arr("area_distinct", np.float64) if a["weights"] else None))
+                                              weights=wts(W, a)))
 
 
 @op("moving_median", group="window")
@@ -475,7 +484,7 @@ def _():
             lambda W, a: feats_canon(W.flw.vectorize(mask=W.arr("mask", bool) if a["mask"] else None, direction=a["direction"])))
 
 
-@op("streams", classes=R, group="vector")
+@op("streams", classes=R, group="vector", variants=4)
 def _():
     def call(W, a):
         kw = dict(min_sto=a["min_sto"], max_len=a["max_len"])
@@ -485,7 +494,7 @@ def _():
             kw["idxs_out"] = np.array(W.w["valid"][:3], dtype=W.flw.idxs_ds.dtype)
             kw["direction"] = a["direction"]
         return feats_canon(W.flw.streams(**kw))
-    return (lambda rng, w: {"min_sto": rng.choice([1, 2]), "max_len": rng.choice([0, 1, 2, 5]), "strord": rng.random() < 0.3,
+    return (lambda rng, w: {"min_sto": rng.choice([1, 2]), "max_len": rng.choice([0, 1, 2, 3, 4, 5, 7]), "strord": rng.random() < 0.3,
                             "idxs_out": rng.random() < 0.25, "direction": rng.choice(["up", "down"])}, call)
 
 
@@ -515,19 +524,27 @@ def _():
                             "unit": rng.choice(["cell", "m2", "km2"])}, call)
 
 
-@op("subgrid_riv", classes=R, group="subgrid")
+@op("subgrid_riv", classes=R, group="subgrid", variants=2)
 def _():
     def call(W, a):
         up = W.uparea_distinct()
         idxs_out = W.flw.ucat_outlets(a["s"], uparea=up) if a["outs"] else None
+        if idxs_out is not None and a.get("drop"):
+            # unit catchments without an outlet pixel (as ucat_outlets reports them for empty cells): missing value
+            idxs_out = idxs_out.copy()
+            idxs_out.flat[a["drop"] % idxs_out.size] = W.flw._mv
         msk = up >= 2 if a["mask"] else None
+        wts = None
+        if a.get("weights"):
+            wts = np.ascontiguousarray(np.where(W.arr("elev", np.int64) % 3 != 0, 0.0, W.arr("area_distinct", np.float64)))
         rl = W.flw.subgrid_rivlen(idxs_out, mask=msk, direction=a["direction"], unit=a["unit"])
-        ra = W.flw.subgrid_rivavg(idxs_out, W.arr("elevf", np.float64), direction=a["direction"], mask=msk)
+        ra = W.flw.subgrid_rivavg(idxs_out, W.arr("elevf", np.float64), weights=wts, direction=a["direction"], mask=msk)
         rm = W.flw.subgrid_rivmed(idxs_out, W.arr("elevf", np.float64), direction=a["direction"], mask=msk)
         rs = W.flw.subgrid_rivslp(idxs_out, W.arr("elevf", np.float64), length=a["length"], direction=a["sdir"],
                                   method=a["smethod"], mask=msk)
         return rl, ra, rm, rs
     return (lambda rng, w: {"s": rng.choice([2, 3]), "outs": rng.random() < 0.8, "mask": rng.random() < 0.4,
+                            "drop": rng.choice([0, 0, 1, 2, 3, 5]), "weights": rng.random() < 0.4,
                             "direction": rng.choice(["up", "down"]), "unit": rng.choice(["cell", "m"]),
                             "length": rng.choice([2, 5, 1000]), "sdir": rng.choice(["both", "up", "down"]),
                             "smethod": rng.choice(["mean", "lstsq"])}, call)
